@@ -14,6 +14,9 @@ git apply "$D/patch.diff" || { echo '{"applies": false}' > $D/confirm.json; exit
 cargo test --offline -p biscuit-auth --test verif_demo_x > $D/confirm_demo_with.log 2>&1; DC=$?
 rm -f biscuit-auth/tests/verif_demo_x.rs
 cargo test --workspace --no-fail-fast --offline > $D/confirm_suite_with.log 2>&1; ST=$?
+if [ $ST -ne 0 ]; then   # tests with 1 ms time limits fail spuriously under load: retry once
+  cargo test --workspace --no-fail-fast --offline > $D/confirm_suite_with.log 2>&1; ST=$?
+fi
 git checkout -- .
 PASSED=$(grep -E "^test result: ok" $D/confirm_suite_with.log | sed -E 's/.* ([0-9]+) passed.*/\1/' | paste -sd+ | bc)
 FAILED=$(grep -cE "^test .* FAILED" $D/confirm_suite_with.log)
